@@ -6,7 +6,7 @@
 From Coq Require Import List NArith ZArith Bool Arith Lia.
 From RecordUpdate Require Import RecordUpdate.
 From JV Require Import Bytes Msg SrvModel SrvLemmas SrvC06.
-From JV Require SrvNoCrash.
+From JV Require SrvNoCrash SrvC01 SrvC01b SrvC06b.
 Import ListNotations.
 
 (* 1. slots in use + free slots = K, in every state at a window boundary ... *)
@@ -199,3 +199,39 @@ Theorem c06_cancelled_waiter_never_started : forall c s k t b l s' os p cancelle
     t_params t1 = p /\ (t_st t1 = TAtAcquire \/ t_st t1 = TWaiting) /\ t_st t1' = TRunning.
 Proof. exact done_never_started. Qed.
 Print Assumptions c06_cancelled_waiter_never_started.
+
+(* 7. work conservation, window by window.  When invoke returns (LRelHandled: the slot is released) while the
+      semaphore queue is not empty, the request at its head gets the slot in that very window: it leaves the queue
+      and enters its handler (OStart among the observations of the window; the built-in has no user handler and goes
+      straight to its return point).  No slot was free before (otherwise nobody would have been queued). *)
+Theorem c06_release_hands_slot : forall c s k s' os j r tj, reach c s -> step s (LRelHandled k) = Some (s', os) ->
+  sem_wait s = j :: r -> nth_error (tasks s) j = Some tj ->
+  sem_wait s' = r /\ ~ In j (sem_wait s') /\ sem_free s = 0 /\
+  exists tj', nth_error (tasks s') j = Some tj' /\
+    if t_builtin tj then t_st tj' = TAtHandled (ORes [])
+    else t_st tj' = TRunning /\ In (OStart (t_params tj) (t_cancelled tj)) os.
+Proof. exact SrvC06b.c06_release_hands_slot. Qed.
+Print Assumptions c06_release_hands_slot.
+
+(* in every reachable state (not only quiescent ones): a request waits for a slot only while all Concurrency slots
+   are taken; as long as fewer are taken nobody waits *)
+Theorem c06_waits_only_when_full : forall c s k t, reach c s -> nth_error (tasks s) k = Some t -> t_st t = TWaiting ->
+  sem_free s = 0 /\ slots_used s = cf_K c /\ In k (sem_wait s).
+Proof. exact SrvC06b.c06_waits_only_when_full. Qed.
+Print Assumptions c06_waits_only_when_full.
+
+Theorem c06_free_slot_nobody_waits : forall c s, reach c s -> slots_used s < cf_K c ->
+  sem_wait s = [] /\ forall k t, nth_error (tasks s) k = Some t -> t_st t <> TWaiting.
+Proof. exact SrvC06b.c06_free_slot_nobody_waits. Qed.
+Print Assumptions c06_free_slot_nobody_waits.
+
+(* 8. the cancelled waiter is answered: once its unit has finished, the unit was delivered exactly once and the
+      message sent for it contains the reply with its id and the cancellation error (unit_sends: the messages of the
+      deliver windows of the run, srv/SrvC01b.v); its handler never ran (props/C01.v: c01_cancel_err_body) *)
+Theorem c06_cancelled_waiter_answered : forall c tr s oss k t, run (init_of c) tr = Some (s, oss) ->
+  nth_error (tasks s) k = Some t -> t_st t = TDone (Some cancel_err) -> is_note t = false ->
+  SrvC01.ufin s (t_unit t) = true ->
+  SrvLemmas.countb (SrvC01.is_deliver (t_unit t)) tr = 1 /\
+  exists b rs, In (t_unit t, b, rs) (SrvC01b.unit_sends tr oss) /\ In {| r_id := t_id t; r_body := cancel_err |} rs.
+Proof. exact SrvC06b.c06_cancelled_waiter_answered. Qed.
+Print Assumptions c06_cancelled_waiter_answered.
